@@ -19,6 +19,40 @@ CHECKS = {
             'and of names/order/to_cpp on generated inputs.',
             'typedef lookups through already rewritten namespaces are modelled for forward declarations only (else Unsupported).',
             'Coq proof (product order, scope invariant) + model/implementation correspondence', '6 C08'),
+    'C03': ('proof', 'Theorems (Props/C03.v) over the record-level model of the pybind generator: the multiset of binding '
+            'keys (scope, kind, Python name, parameter types) generated is a permutation of the declared one (declaration-order '
+            'traversal, top namespace at any depth, ignore list, serialization flag), nothing ignored is bound, nothing '
+            'outside the top namespace is declared; refuted/repaired pairs for ignored-class enums and keyword table. '
+            'Tie: Pybind/Render.v reproduces wrap_file byte for byte on generated inputs x option sets; where bytes differ '
+            'the binding keys extracted from both texts decide.',
+            'submodule-created-once is checked on outputs, not proved (reopened namespaces violate it: recorded).',
+            'Coq proof (permutation of declared keys) + byte-level model/implementation correspondence', '6 C03'),
+    'C04': ('proof', 'Theorems (Props/C04.v) under a small formal semantics of pybind11 argument loading and lambda '
+            'evaluation (Pybind/Sem.v): a method/static/function binding called with any positional/keyword mix invokes '
+            'the declared entity (self-> / Class:: / ns::, explicit template args) with the declared parameters in order, '
+            'defaults on the right parameters, returns iff non-void; hypothesis forced: distinct parameter names. '
+            'Tie: byte-level correspondence of the generator; view = lambda params, body, py::args per binding.',
+            'partial: pybind11 and C++ are formalised, not verified (trusted); compile-and-run validation not in the quick tier.',
+            'Coq proof (binding semantics) + byte-level correspondence', '6 C04'),
+    'C09': ('proof', 'Theorems (Props/C09.v): every rendered statement leaves a quote-aware bracket scanner unchanged '
+            '(balanced, untruncated) for all record lists given balanced user pieces; lambda/py::arg/call counts agree. '
+            'Direct checks on implementation output (balance, counts, names, module variables declared once and before use). '
+            'Findings: namespaced variable with initialiser, reopened namespace.',
+            'partial: "compiles against any conforming library" is reduced to the four syntactic conditions of the statement; '
+            'print-redirect records are outside the balance theorem; no compiler run in the quick tier.',
+            'Coq proof (balanced rendering) + direct output checks + correspondence', '6 C09'),
+    'C15': ('proof', 'Theorem (Props/C15.v): for the pybind generator model, wrap(ignore += x) = wrap(input with every '
+            'declaration named x deleted), records/includes/exports alike, global or nested; compositionality of scopes. '
+            'Tie: metamorphic experiment on the implementation (ignore vs delete, byte equal) per generated class; the '
+            'recorded ignored-class-enums quirk is the only accepted difference and must be explained exactly by the model.',
+            'MATLAB half pending its model (not yet covered).',
+            'Coq proof (ignore = remove) + metamorphic correspondence', '6 C15'),
+    'C16': ('proof', 'Theorems (Props/C16.v): fields of wrap_file - one initialiser declaration and call per additional '
+            'file in order, submodule definition `void stem(py::module_ &m_)`, body/includes/exports independent of mode and '
+            'name; script namespace-string plumbing. Tie: API vs model bytes for main and submodule files; both script modes '
+            'run as subprocesses over the option lattice vs the API.',
+            'MATLAB concatenation lemma pending the parser model (not yet covered).',
+            'Coq proof (file fields) + subprocess/API/model correspondence', '6 C16'),
     'C13': ('proof', 'Theorems (Props/C13.v): an instantiation is a function of its own argument tuple only (lists are '
             'never read), pointwise image of the product; alpha-invariance on the C02 domain via the substitution spec; '
             'refuted in general by the substring rewrite (recorded). Tie: metamorphic experiments on the implementation '
